@@ -290,6 +290,23 @@ def run(chk, tier):
             chk.expect(made == [v], "token-conversion", name, v, [v], made, loc=f"{fnh['loc']['f']}:{ln}")
             n_ok += 1
         chk.expect(n_ok == 6, "token-conversion", name, "structural-variants", 6, n_ok)
+    # ---- both readers start from the same neutral state: no pending check, not in a sequence, no offset table expected, not broken
+    chk.rule("initial-state", "every constructor of DataSetReader / LazyDataSetReader starts with delimiter_check_pending, offset_table_next, in_sequence, hard_break = false, "
+             "an empty delimiter stack, no saved header and nothing peeked")
+    n_ctor = 0
+    for hh in fx.crate("dicom_parser")["hir"]:
+        if "{closure" in hh["path"] or not re.search(r"dataset::(read::DataSetReader|lazy_read::LazyDataSetReader)", hh["path"]):
+            continue
+        for y in H.walk(hh["body"]):
+            if H.kind(y) == "struct" and re.search(r"(read::DataSetReader|lazy_read::LazyDataSetReader)$", y[2]) and isinstance(y[4], list):
+                inits = {f[0]: H.show(f[1], 4) for f in y[4] if isinstance(f, list) and len(f) == 2}
+                n_ctor += 1
+                flags = {k: inits.get(k) for k in ("delimiter_check_pending", "offset_table_next", "in_sequence", "hard_break") if k in inits}
+                others = {k: inits.get(k) for k in ("seq_delimiters", "last_header", "peek") if k in inits}
+                ok = len(flags) >= 3 and all(v == "false" for v in flags.values()) and all(v.endswith(("Vec::<T>::new()", "Vec::new()", "Option::None")) for v in others.values())
+                chk.expect(ok, "initial-state", hh["path"].split("::")[-1] + ("(lazy)" if "lazy_read" in hh["path"] else "(eager)"), f"literal@{n_ctor}", "all flags false, empty stack, nothing saved",
+                           {**flags, **others}, loc=f"{hh['loc']['f']}:{y[1]}")
+    chk.floor("initial-state", "reader constructors", n_ctor, 3)
     # ---- the collector's public portions: state tests are equalities on the documented states, the parser is obtained in one way, and
     # the portion readers hand the right stop arguments to collect_to_object
     chk.rule("collector-portions", "DicomCollector: read_file_meta reads the preamble iff state == Start and the meta group iff state == Preamble; every portion reader "
